@@ -32,10 +32,10 @@ structure Inv (s : State) : Prop where
   kindS : ∀ f ∈ s.subs, f.kind = .sub
   kindPool : ∀ f ∈ s.pool, f.kind = .cand
 
-theorem insertSorted_ok {l : List Feat} {d : Dict Nat} {x : Feat} {l' : List Feat} {d' : Dict Nat}
-    (h : insertSorted l d x = .ok (l', d')) :
+theorem insertSortedWith_ok {lt : Feat → E Bool} {l : List Feat} {d : Dict Nat} {x : Feat} {l' : List Feat} {d' : Dict Nat}
+    (h : insertSortedWith lt l d x = .ok (l', d')) :
     ∃ index, index ≤ l.length ∧ l' = insertAt l index x ∧ d' = renumber d l' index := by
-  simp only [insertSorted, bind, Except.bind] at h
+  simp only [insertSortedWith, bind, Except.bind] at h
   split at h
   · cases h
   · next index hidx =>
@@ -43,10 +43,10 @@ theorem insertSorted_ok {l : List Feat} {d : Dict Nat} {x : Feat} {l' : List Fea
     have := bisectLeft_bounds _ _ _ _ _ _ (Nat.zero_le _) hidx
     exact ⟨index, this.2, h.1.symm, by rw [← h.2, h.1]⟩
 
-theorem insertSorted_numbered {l : List Feat} {d : Dict Nat} {x : Feat} {l' : List Feat} {d' : Dict Nat}
-    (hn : Numbered d l) (hnd : (ids (x :: l)).Nodup) (h : insertSorted l d x = .ok (l', d')) :
+theorem insertSortedWith_numbered {lt : Feat → E Bool} {l : List Feat} {d : Dict Nat} {x : Feat} {l' : List Feat} {d' : Dict Nat}
+    (hn : Numbered d l) (hnd : (ids (x :: l)).Nodup) (h : insertSortedWith lt l d x = .ok (l', d')) :
     Numbered d' l' ∧ l'.Perm (x :: l) := by
-  obtain ⟨index, hle, rfl, rfl⟩ := insertSorted_ok h
+  obtain ⟨index, hle, rfl, rfl⟩ := insertSortedWith_ok h
   have hp := insertAt_perm l index x
   refine ⟨?_, hp⟩
   apply renumber_numbered
@@ -55,9 +55,17 @@ theorem insertSorted_numbered {l : List Feat} {d : Dict Nat} {x : Feat} {l' : Li
     rw [insertAt_get_lt l index j x hj hle] at hf
     exact hn j f hf
 
+theorem insertSorted_numbered {l : List Feat} {d : Dict Nat} {x : Feat} {l' : List Feat} {d' : Dict Nat}
+    (hn : Numbered d l) (hnd : (ids (x :: l)).Nodup) (h : insertSorted l d x = .ok (l', d')) :
+    Numbered d' l' ∧ l'.Perm (x :: l) := insertSortedWith_numbered hn hnd h
+
+theorem insertSortedRight_numbered {l : List Feat} {d : Dict Nat} {x : Feat} {l' : List Feat} {d' : Dict Nat}
+    (hn : Numbered d l) (hnd : (ids (x :: l)).Nodup) (h : insertSortedRight l d x = .ok (l', d')) :
+    Numbered d' l' ∧ l'.Perm (x :: l) := insertSortedWith_numbered hn hnd h
+
 
 theorem addSubregion_ok {s s' : State} {loc : Loc} (h : addSubregion s loc = .ok s') :
-    ∃ l d, insertSorted s.subs s.numS ⟨s.nextId, .sub, loc, [], [], []⟩ = .ok (l, d) ∧
+    ∃ l d, insertSortedRight s.subs s.numS ⟨s.nextId, .sub, loc, [], [], []⟩ = .ok (l, d) ∧
       s' = { s with nextId := s.nextId + 1, subs := l, numS := d } := by
   simp only [addSubregion, mkLeaf, bind, Except.bind, pure, Except.pure] at h
   split at h
@@ -91,7 +99,7 @@ theorem addSubregion_inv {s s' : State} {loc : Loc} (hi : Inv s) (h : addSubregi
     intro hm
     obtain ⟨f, hf, e⟩ := List.mem_map.1 hm
     exact hxfresh f (by simp [hf]) e
-  obtain ⟨hnum, hp⟩ := insertSorted_numbered hi.numS hnd hins
+  obtain ⟨hnum, hp⟩ := insertSortedRight_numbered hi.numS hnd hins
   have hmem : ∀ f, f ∈ l ↔ f = ⟨s.nextId, .sub, loc, [], [], []⟩ ∨ f ∈ s.subs := by
     intro f; rw [hp.mem_iff]; simp
   refine ⟨?_, ?_, hi.nodupR, hi.freshR, hi.numP, hi.numC, hnum, hi.numR, hi.disjointR, ?_, ?_, ?_, hi.parentP, hi.cdsLink, ?_, ?_,
@@ -161,7 +169,7 @@ theorem addSubregion_inv {s s' : State} {loc : Loc} (hi : Inv s) (h : addSubregi
 
 
 theorem addProtocluster_ok {s s' : State} {loc : Loc} (h : addProtocluster s loc = .ok s') :
-    ∃ l d, insertSorted s.protos s.numP ⟨s.nextId, .proto, loc, [], [], []⟩ = .ok (l, d) ∧
+    ∃ l d, insertSortedRight s.protos s.numP ⟨s.nextId, .proto, loc, [], [], []⟩ = .ok (l, d) ∧
       s' = { s with nextId := s.nextId + 1, protos := l, numP := d } := by
   simp only [addProtocluster, mkLeaf, bind, Except.bind, pure, Except.pure] at h
   split at h
@@ -195,7 +203,7 @@ theorem addProtocluster_inv {s s' : State} {loc : Loc} (hi : Inv s) (h : addProt
     intro hm
     obtain ⟨f, hf, e⟩ := List.mem_map.1 hm
     exact hxfresh f (by simp [hf]) e
-  obtain ⟨hnum, hp⟩ := insertSorted_numbered hi.numP hnd hins
+  obtain ⟨hnum, hp⟩ := insertSortedRight_numbered hi.numP hnd hins
   have hmem : ∀ f, f ∈ l ↔ f = ⟨s.nextId, .proto, loc, [], [], []⟩ ∨ f ∈ s.protos := by
     intro f; rw [hp.mem_iff]; simp
   refine ⟨?_, ?_, hi.nodupR, hi.freshR, hnum, hi.numC, hi.numS, hi.numR, hi.disjointR, ?_, ?_, hi.parentA, ?_, hi.cdsLink, ?_, ?_,
